@@ -269,6 +269,12 @@ def update_node(
             that the data is already formatted.
     """
     if target not in node_ref:  # add node
+        if isinstance(data, dict):
+            # a new node stores formatted lines, like the existing ones
+            data = [
+                str(key) if val is None else f"{key} {val}"
+                for key, val in data.items()
+            ]
         # TODO: remove decommented try-except construction later
         # try:
         _add_node(target, settings, data, nodes, node_ref)
